@@ -117,8 +117,18 @@ def _parse_to_ast(
         resolved_path=resolved_path,
     )
 
-    # postcondition: consumed all the for loop annotations
-    assert len(pre_parser.for_loop_annotations) == 0
+    # postcondition: consumed all the for loop annotations. annotations
+    # are left over when a `for` occurs outside a loop statement
+    # (comprehensions, generator expressions, `async for`)
+    if len(pre_parser.for_loop_annotations) != 0:
+        lineno, col_offset = next(iter(pre_parser.for_loop_annotations))
+        raise SyntaxException(
+            "`for` is only allowed as a loop statement (comprehensions, generator "
+            "expressions and `async for` are not supported)",
+            vyper_source,
+            lineno,
+            col_offset,
+        )
 
     # postcondition: we have used all the hex strings found by the
     # pre-parser
